@@ -117,6 +117,15 @@ fn value_from_view(view: &SafeTensorView) -> io::Result<Value> {
         )
     })?;
     let shape = view.shape();
+    // The safetensors crate checks that the element count does not overflow,
+    // but a zero-sized dimension hides the overflow of the remaining ones,
+    // which would then overflow when the tensor's strides are computed.
+    shape
+        .iter()
+        .try_fold(1usize, |acc, &dim| acc.checked_mul(dim.max(1)))
+        .ok_or_else(|| {
+            io::Error::new(io::ErrorKind::InvalidData, "tensor element count overflows")
+        })?;
     let bytes = view.data();
     let value = dispatch_data_type!(data_type, T => {
         let data = <T as SafeElement>::from_le_bytes(bytes);
